@@ -30,7 +30,12 @@ class Contract:
     def __init__(self, key, file=None, qualname=None, params=None, returns="None", requires=(), ensures=(),
                  raises=None, modifies=(), loops=None, locals=None, kind="verified", pure=False,
                  fresh_result=False, note="", strings="opaque", inline=False, anon_raises=False,
-                 crash_inv=None, variant_checks=True, defs=None, ghost_updates=(), assume_body=(), ghost_ensures=()):
+                 crash_inv=None, variant_checks=True, defs=None, ghost_updates=(), assume_body=(), ghost_ensures=(), reads=None,
+                 lock_wrapper=None):
+        # higher-order lock wrapper (DESIGN 3.4.4): dict(ghost=<lock ghost>, func_index=<position of the callable>,
+        # marker=<ghost set when an exception leaves the critical section>)
+        self.lock_wrapper = lock_wrapper
+        self.reads = list(reads) if reads else None   # records a pure contract depends on (default: its Ref parameters)
         self.key = key
         self.file = file
         self.qualname = qualname or key
@@ -150,9 +155,19 @@ def opaque_global(*names):
 FOLDS = {}      # name -> (element Ty, term expression over `x`, result Ty)
 
 
-def fold(name, elem, term, ty="int"):
+FOLD_BOUNDS = {}   # name -> (lo, hi): lo <= term(x) <= hi for every x   (then lo*len <= fold <= hi*len)
+FOLD_LE = []       # (a, b): term_a(x) <= term_b(x) for every x          (then fold_a(L) <= fold_b(L))
+
+
+def fold(name, elem, term, ty="int", bounds=None):
     """Sum over a list defined by snoc-recursion: fold([])=0, fold(L+[x]) = fold(L) + term(x)."""
     FOLDS[name] = (T.parse_ty(elem), term, T.parse_ty(ty))
+    if bounds:
+        FOLD_BOUNDS[name] = bounds
+
+
+def fold_le(a, b):
+    FOLD_LE.append((a, b))
 
 
 def _load_enum(name):
